@@ -17,7 +17,7 @@ BOUNDS = ("export: a fixed document shape of the list schema (heading, paragraph
           "code block, ordered/bullet list, blockquote, rule) with every text and attribute string built from 1..2 "
           "symbolic characters of {a < & dquote squote > space}, heading level 1..6 and list start -1..3 symbolic (rendered into the output text), mark bits symbolic; "
           "context expressions: 12 expressions, ancestor stacks of depth <= 4 over 6 node types")
-ASSUMPTIONS = ["escaping reference = the five replacements for & < > dquote squote in text and attribute values",
+ASSUMPTIONS = ["pending-mark unit: contexts are built directly (NodeContext(type, ...)) with one pending mark and at most one active mark; schemas list, docmarks (quick) + mx1, mx5 (thorough)", "escaping reference = the five replacements for & < > dquote squote in text and attribute values",
                "the lxml-bound import half (parse, parse_slice, add_dom, normalize_list, whitespace handling, round trip) is not covered"]
 
 P = {}
